@@ -101,3 +101,7 @@ pub(super) fn equal_len(
 ) -> bool {
     lhs_values[lhs_start..(lhs_start + len)] == rhs_values[rhs_start..(rhs_start + len)]
 }
+
+#[cfg(kani)]
+#[path = "/verif/kani/arrow-data/equal/utils.rs"]
+mod verif_kani;
